@@ -17,6 +17,7 @@ const (
 	opChoiceShort // choice ch { container }  (implicit case)
 	opUsesNested  // grouping whose body uses another grouping that holds the node
 	opAugment2    // augment written in a second augmenting module (b2), so that augments chain across three modules
+	opAugmentSub  // augment written in the submodule s of the base module m, with the belongs-to prefix
 	nOps
 )
 
@@ -122,6 +123,15 @@ func (sc *hcSchema) gen(i int, inG2 bool) string {
 		g, h := "g"+idx, "h"+idx
 		sc.gBody += "grouping " + h + " { " + inner(true) + " } grouping " + g + " { uses " + h + "; } "
 		return usesText(g)
+	case opAugmentSub:
+		parentSteps, parentNs := []string{}, []string{}
+		if i > 0 {
+			parentSteps, parentNs = sc.levels[i-1].steps, sc.levels[i-1].nsOf
+		} else {
+			parentSteps, parentNs = sc.topSteps()
+		}
+		sc.sBody += "augment " + hcPath(parentSteps, parentNs, "m") + " { " + inner(false) + " } "
+		return ""
 	case opAugment, opAugment2:
 		parentSteps, parentNs := []string{}, []string{}
 		if i > 0 {
@@ -169,7 +179,24 @@ func hcGenerate(n int) *hcSchema {
 			}
 		}
 		if i == 0 && (sc.top == topRPCInputImplicit || sc.top == topRPCOutputImplicit) {
-			assume(lv.op == opAugment || lv.op == opAugment2) // nothing is written there inline
+			assume(lv.op == opAugment || lv.op == opAugment2 || lv.op == opAugmentSub) // nothing is written there inline
+		}
+		if i == 0 && (sc.top == topRPCInputImplicit || sc.top == topRPCOutputImplicit) && lv.op == opAugmentSub {
+			// allowed: the submodule may fill the unwritten input/output, too
+		}
+		if lv.op == opAugmentSub {
+			// the submodule does not import a or b2: its target path may only run through m's nodes
+			for _, nsx := range nsOf {
+				if nsx != "m" {
+					assume(false)
+				}
+			}
+			ctx = "m"
+			for _, up := range sc.levels {
+				if up.op == opChoiceShort {
+					assume(false)
+				}
+			}
 		}
 		if lv.op == opAugment || lv.op == opAugment2 {
 			ctx = "a"
